@@ -148,6 +148,8 @@ def main(tier, replay_payload=None):
         ps = PathSym(w.inv() + [VARV == vn])
         recs = ps.explore(lambda p: both(p, w))
         return recs, ps.st.as_dict()
+    from engine import battery
+    battery.validate(run)
     nv = len(variants(b"x"))
     for recs, st in par_explore(worker, list(range(nv))):
         run.add_stats(st)
